@@ -4,6 +4,10 @@ Real `Terminal.sdo_read/sdo_write/mbx_send/mbx_recv` on top of the real
 `EtherCat.roundtrip`; only the datagram queue is replaced: every datagram is
 answered at once by a simulated terminal = mailbox registers + a strict
 ETG.1000.6 CoE SDO server (class `Server`, written from the specification).
+The terminal object gets its mailbox offsets and sizes from the real
+`Terminal.parse_sync_managers`, fed with a sync manager table that describes the
+simulated hardware (several table shapes, symmetric and asymmetric mailboxes);
+the simulation hands a mail over only with the last byte of the hardware's mailbox.
 
 Three correspondences per composed case, all exact:
   * real master  vs  Lean `Ebv.Sdo` master on the mails the real master received,
@@ -26,8 +30,8 @@ import struct
 from pathlib import Path
 
 ID = "C16"
-LEAN_MODULES = ["Ebv.Props.C16"]
-MODEL_MODULES = ["Ebv.Model.Sdo", "Ebv.Model.SdoServer", "Ebv.Model.SdoSystem"]
+LEAN_MODULES = ["Ebv.Props.C16", "Ebv.Props.C16Config"]
+MODEL_MODULES = ["Ebv.Model.Sdo", "Ebv.Model.SdoServer", "Ebv.Model.SdoSystem", "Ebv.Model.SdoConfig"]
 DRIVER = "Drivers/C16.lean"
 THEOREMS = [
     "Ebv.C16.read_expedited_exact", "Ebv.C16.read_normal_exact", "Ebv.C16.read_segmented_exact",
@@ -36,6 +40,7 @@ THEOREMS = [
     "Ebv.C16.fits_mailbox", "Ebv.C16.toggle_alternates",
     "Ebv.C16.read_requests_fit_and_toggle", "Ebv.C16.write_requests_fit_and_toggle", "Ebv.C16.server_responses_fit",
     "Ebv.C16.read_long_run", "Ebv.C16.write_run",
+    "Ebv.C16.mailboxes_exact", "Ebv.C16.configure_exact", "Ebv.C16.configure_none",
 ]
 TRUSTED = [
     "hand-written model Ebv.Sdo of Terminal.sdo_read/sdo_write/mbx_send/mbx_recv, tied by exact trace correspondence",
@@ -43,6 +48,8 @@ TRUSTED = [
     "harness/vh/props/c16.py is checked against it on every run",
     "Ebv.SdoSystem.system: composition master||server by causal iteration, checked against the real interleaving",
     "MBXType/CoECmd/ODCmd values regenerated into Ebv.Generated.Consts",
+    "Ebv.SdoConfig.configure: the transfer parameters are what Ebv.Eeprom.parseSM (C17's model of parse_sync_managers, "
+    "sm_exact) extracts from the case's sync manager table; the driver derives the model's sizes from the table",
 ]
 ASSUMPTIONS = [
     "the datagram queue behind EtherCat.roundtrip is the only way the SDO code touches the bus (answered in-process)",
@@ -51,9 +58,11 @@ ASSUMPTIONS = [
     "(set only while unrelated mail is pending), unrelated mail has a non-CoE mailbox type",
     "a zero-length object is uploaded with a normal response of complete size 0",
 ]
-RULE = ("composed cases: kind in {read,write} x (out,in) mailbox sizes from {24,32,64,128,256} x subindex/complete access x "
+RULE = ("composed cases: kind in {read,write} x (out,in) mailbox sizes from {24,32,64,128,256} and odd ones {25,31,57,100,255} x subindex/complete access x "
         "lengths 0..3*mbx+9 (every length for small mailboxes, +-3 around every segment boundary and a random sample for the "
-        "large ones in the quick tier) x schedules (none / delays / unrelated mail with and without the 0x805 drain); "
+        "large ones in the quick tier) x schedules (none / delays / unrelated mail with and without the 0x805 drain) x sync manager "
+        "table shape (standard four records, mailboxes only, receive mailbox first, process data first, interleaved, the 0x80-byte "
+        "register image with unused managers, managers of unknown kinds anywhere, random upper control bits and status bytes); "
         "scripted cases: random and near-conformant mail lists (bad types, short bodies, 7-byte last segments, aborts); "
         "server cases: the request streams of the composed cases + random request streams; non-trivial = at least one "
         "message sent and a response consumed")
@@ -75,6 +84,7 @@ DESIGN_REF = "§4 C16"
 
 OUT_OFF, IN_OFF = 0x1000, 0x1400
 SIZES = (24, 32, 64, 128, 256)
+ODD_SIZES = (25, 31, 57, 100, 255)        # mailboxes need not be a power of two, nor even
 INDEX = 0x2000
 
 
@@ -244,6 +254,7 @@ class Sim:
         self.trace, self.received, self.requests, self.responses = [], [], [], []
         self.pending = None
         self.nsend = 0
+        self.ndgram = 0
         if server is not None and self.sched:
             self.queue.extend([0, m] for m in self.sched[0]["pre"])
 
@@ -253,6 +264,9 @@ class Sim:
     def datagram(self, cmd, out, pos, off):
         from ebpfcat.ethercat import ECCmd
         n = len(out)
+        self.ndgram += 1
+        if self.ndgram > 4000:
+            raise Blocked()             # the call keeps the bus busy without getting anywhere
         if cmd is ECCmd.FPRD and off == 0x805 and n == 1:
             full = self.fulls.pop(0) if self.fulls else False
             self.trace.append("s8" if full else "s0")
@@ -289,7 +303,63 @@ class Sim:
                 if k + 1 < len(self.sched):
                     self.queue.extend([0, m] for m in self.sched[k + 1]["pre"])
             return out
+        # accesses inside the mailboxes that are not the ones a mail is handed over with: the memory is read / written,
+        # but a mail only changes hands with the LAST byte of its mailbox (the hardware's sizes, whatever the master thinks)
+        if cmd is ECCmd.FPRD and IN_OFF <= off and off + n <= IN_OFF + self.in_sz:
+            if not self.queue:
+                raise Blocked()
+            self.trace.append(f"r@{off - IN_OFF}+{n}")
+            m = self.pad(self.queue[0][1])[off - IN_OFF:off - IN_OFF + n]
+            if off + n == IN_OFF + self.in_sz:
+                self.received.append(self.queue.popleft()[1])
+            return m
+        if cmd is ECCmd.FPWR and OUT_OFF <= off and off + n <= OUT_OFF + self.out_sz:
+            self.trace.append(f"w@{off - OUT_OFF}:" + out.hex())
+            if off + n == OUT_OFF + self.out_sz:
+                raise AssertionError("a mail handed over in a way this simulation does not know")
+            return out
         raise AssertionError(f"unexpected bus access {cmd} {off:#x} len {n}")
+
+
+# ------------------------------------------------------------------------------------------------
+# the terminal's configuration: the sync manager table `Terminal.parse_sync_managers` reads the mailbox
+# offsets and sizes from (category 41 of the EEPROM in apply_eeprom, the registers 0x800.. in gentle_initialize)
+
+def sm_record(off, size, ctrl, rest=(0, 1, 0)):
+    return struct.pack("<HHBBBB", off, size, ctrl, *rest)
+
+
+def standard_sm(out_sz, in_sz):
+    return sm_record(OUT_OFF, out_sz, 0x26) + sm_record(IN_OFF, in_sz, 0x22) + sm_record(0x1800, 0, 0x24) + sm_record(0x1c00, 0, 0x20)
+
+
+def make_sm(rng, out_sz, in_sz):
+    """a table that describes the simulated hardware (send mailbox out_sz bytes at OUT_OFF, receive mailbox in_sz bytes at
+    IN_OFF) in one of the shapes such tables come in"""
+    hi = lambda: rng.choice([0x00, 0x20, 0x20, 0x30, 0x60])
+    rest = lambda: (rng.randrange(256), rng.randrange(2), rng.randrange(4))
+    mo, mi = sm_record(OUT_OFF, out_sz, hi() | 6, rest()), sm_record(IN_OFF, in_sz, hi() | 2, rest())
+    po = sm_record(0x1800, rng.choice([0, 0, 2, 8, out_sz, in_sz]), hi() | 4, rest())
+    pi = sm_record(0x1c00, rng.choice([0, 0, 1, 6, out_sz, in_sz]), hi() | 0, rest())
+    shape = rng.choice(["std", "std", "mbx", "rev", "pdo-first", "regs", "split"])
+    if shape == "std":
+        recs = [mo, mi, po, pi]
+    elif shape == "mbx":
+        recs = [mo, mi]
+    elif shape == "rev":
+        recs = [mi, mo] + ([pi, po] if rng.random() < 0.5 else [])
+    elif shape == "pdo-first":
+        recs = [po, pi, mo, mi]
+    elif shape == "regs":           # the 0x80 bytes of sync manager registers: unused managers read as zeros
+        recs = [mo, mi, po, pi] + [bytes(8)] * 12
+    else:
+        recs = [mo, po, mi, pi]
+    # managers of a kind the driver does not know (control nibble not 0/2/4/6) are skipped wherever they stand
+    for _ in range(rng.choice([0, 0, 1, 2])):
+        junk = sm_record(rng.choice([OUT_OFF, IN_OFF, 0x1100, 0]), rng.choice([0, 16, out_sz + 8, in_sz + 8, 512]),
+                         hi() | rng.choice([1, 3, 5, 7, 8, 9, 10, 11, 12, 13, 14, 15]), rest())
+        recs.insert(rng.randrange(len(recs) + 1), junk)
+    return b"".join(recs)
 
 
 class Queue:
@@ -309,8 +379,9 @@ class Queue:
 _loop = None
 
 
-def call(kind, sim, out_sz, in_sz, index, sub, cnt, value):
-    """run the real sdo_read / sdo_write; returns the canonical outcome"""
+def call(kind, sim, out_sz, in_sz, index, sub, cnt, value, sm=None):
+    """run the real sdo_read / sdo_write on a terminal object configured by the real parse_sync_managers from the
+    sync manager table `sm`; returns the canonical outcome"""
     global _loop
     from ebpfcat.ethercat import EtherCat, Terminal, EtherCatError
     from ebpfcat.lock import MailboxLock
@@ -320,9 +391,10 @@ def call(kind, sim, out_sz, in_sz, index, sub, cnt, value):
     ec.send_queue = Queue(sim)
     t = Terminal(ec)
     t.position = 5
-    t.mbx_out_off, t.mbx_out_sz, t.mbx_in_off, t.mbx_in_sz = OUT_OFF, out_sz, IN_OFF, in_sz
+    t.name = "T5"
 
     async def go():
+        t.parse_sync_managers(standard_sm(out_sz, in_sz) if sm is None else sm)
         t.mbx_lock = MailboxLock()
         t.mbx_lock.counter = cnt
         if kind == "read":
@@ -337,6 +409,8 @@ def call(kind, sim, out_sz, in_sz, index, sub, cnt, value):
         return "ok:" if ret is None else "other:returned"
     except Blocked:
         return "blocked"
+    except AssertionError:
+        return "assertion"
     except EtherCatError:
         return "ethercat-error"
     except TypeError:
@@ -365,6 +439,10 @@ def key_of(case):
     return (case["index"], 1 if sub is None else sub, sub is None)
 
 
+def sm_of(case):
+    return bytes.fromhex(case["sm"]) if "sm" in case else None
+
+
 def run_sys(case):
     """composed run: real master against the Python server"""
     val = bytes.fromhex(case["value"])
@@ -373,14 +451,14 @@ def run_sys(case):
     srv = Server(case["out"], case["in"], [[idx, sub, ca, case["cap"], stored]])
     sched = [{"full": s["full"], "delay": s["delay"], "pre": [bytes.fromhex(m) for m in s["pre"]]} for s in case["sched"]]
     sim = Sim(case["out"], case["in"], [s["full"] for s in sched], server=srv, sched=sched)
-    out = call(case["kind"], sim, case["out"], case["in"], case["index"], case["sub"], case["cnt"], val)
+    out = call(case["kind"], sim, case["out"], case["in"], case["index"], case["sub"], case["cnt"], val, sm_of(case))
     return sim, srv, out
 
 
 def run_script(case):
     sim = Sim(case["out"], case["in"], case["fulls"], mails=[(d, bytes.fromhex(m)) for d, m in case["mails"]])
     out = call(case["kind"], sim, case["out"], case["in"], case["index"], case["sub"], case["cnt"],
-               bytes.fromhex(case["value"]))
+               bytes.fromhex(case["value"]), sm_of(case))
     return sim, out
 
 
@@ -478,7 +556,7 @@ def sys_case(rng, kind, out_sz, in_sz, sub, n, style):
     slots = 2 + n // max(1, min(out_sz, in_sz) - 9)
     c = {"mode": "sys", "kind": kind, "out": out_sz, "in": in_sz, "index": INDEX if rng.random() < 0.7 else rng.randrange(0x1000, 0x10000),
          "sub": sub, "cnt": rng.randrange(0, 8), "value": val.hex(), "cap": n + rng.randrange(0, 3),
-         "sched": schedule(rng, in_sz, style, min(slots, 8))}
+         "sched": schedule(rng, in_sz, style, min(slots, 8)), "sm": make_sm(rng, out_sz, in_sz).hex()}
     if c["sub"] is not None and rng.random() < 0.3:
         c["sub"] = rng.randrange(0, 256)
     if kind == "write":
@@ -489,7 +567,7 @@ def sys_case(rng, kind, out_sz, in_sz, sub, n, style):
 def gen_sys(ctx):
     rng = ctx.rng
     cases = []
-    pairs = [(s, s) for s in SIZES] + [(24, 64), (64, 24), (32, 256), (256, 32), (128, 64)]
+    pairs = [(s, s) for s in SIZES] + [(24, 64), (64, 24), (32, 256), (256, 32), (128, 64), (25, 31), (31, 25), (57, 57)]
     for out_sz, in_sz in pairs:
         small = max(out_sz, in_sz) <= ctx.n(32, 256) and out_sz == in_sz
         top = 3 * max(out_sz, in_sz) + 9
@@ -517,7 +595,7 @@ def gen_working(ctx):
     cases = []
     for _ in range(ctx.n(1000, 40000)):
         kind = rng.choice(["read", "read", "write"])
-        out_sz, in_sz = rng.choice(SIZES), rng.choice(SIZES)
+        out_sz, in_sz = rng.choice(SIZES + ODD_SIZES), rng.choice(SIZES + ODD_SIZES)
         if kind == "read":
             sub = rng.choice([None, None, 0, 1, 2, rng.randrange(0, 256)])
             n = rng.choice([0, 1, 2, 3, 4, 5, 6, in_sz - 17, in_sz - 16, rng.randrange(0, in_sz - 15)])
@@ -542,7 +620,7 @@ def coe_mail(rng, body, typ=3):
 def gen_script(rng):
     """mail lists that are not what a conformant server sends: validates the master model on every branch"""
     kind = rng.choice(["read", "write"])
-    out_sz, in_sz = rng.choice(SIZES), rng.choice(SIZES)
+    out_sz, in_sz = rng.choice(SIZES + ODD_SIZES), rng.choice(SIZES + ODD_SIZES)
     index = rng.choice([INDEX, 0x1c12, 0x6000])
     sub = rng.choice([None, 0, 1, 2, 200])
     n = rng.choice([0, 1, 2, 3, 4, 5, 6, 7, 8, 9, 10, 11, 17, 30, 60, 300])
@@ -595,7 +673,8 @@ def gen_script(rng):
         mails.append([rng.choice([0, 0, 0, 1, 2]), m[:in_sz].hex()])
     fulls = [rng.random() < 0.15 for _ in range(rng.randrange(0, 5))]
     return {"mode": "script", "kind": kind, "out": out_sz, "in": in_sz, "index": index, "sub": sub,
-            "cnt": rng.randrange(0, 8), "value": val.hex(), "fulls": fulls, "mails": mails}
+            "cnt": rng.randrange(0, 8), "value": val.hex(), "fulls": fulls, "mails": mails,
+            "sm": make_sm(rng, out_sz, in_sz).hex()}
 
 
 def gen_server(rng):
@@ -668,9 +747,12 @@ def script_of(case, sim):
         else:
             break
     delays = plan[:len(got)]
-    return {"mode": "script", "kind": case["kind"], "out": case["out"], "in": case["in"], "index": case["index"],
-            "sub": case["sub"], "cnt": case["cnt"], "value": case["value"], "fulls": fulls,
-            "mails": [[d, m.hex()] for d, m in zip(delays, got)]}
+    s2 = {"mode": "script", "kind": case["kind"], "out": case["out"], "in": case["in"], "index": case["index"],
+          "sub": case["sub"], "cnt": case["cnt"], "value": case["value"], "fulls": fulls,
+          "mails": [[d, m.hex()] for d, m in zip(delays, got)]}
+    if "sm" in case:
+        s2["sm"] = case["sm"]
+    return s2
 
 
 def server_of(case, sim):
